@@ -147,7 +147,7 @@ fn minimise_a(o: &Opts, mut doc: serde_json::Value, path: &str) -> i32 {
     let mut ops: Vec<serde_json::Value> = doc.get("ops").and_then(|o| o.as_array()).cloned().unwrap_or_default();
     let before = ops.len();
     let cand = dir.join("candidate.json");
-    let mut budget = 150;
+    let mut budget = 400;
     let try_ops = |ops: &[serde_json::Value], doc: &serde_json::Value, budget: &mut i32| -> bool {
         if *budget <= 0 {
             return false;
@@ -163,14 +163,36 @@ fn minimise_a(o: &Opts, mut doc: serde_json::Value, path: &str) -> i32 {
         let _ = std::fs::remove_dir_all(&dir);
         return 0;
     }
-    let mut i = ops.len();
-    while i > 0 {
-        i -= 1;
-        let mut c = ops.clone();
-        c.remove(i);
-        if try_ops(&c, &doc, &mut budget) {
-            ops = c;
+    // (no wall clock here: this process runs under the simulated clock of seam S6; the driver
+    //  bounds the minimisation from outside)
+    // 1. nothing after the violating step matters
+    if let Some(step) = doc.get("step").and_then(|s| s.as_u64()) {
+        let cut = (step as usize + 1).min(ops.len());
+        if cut < ops.len() && try_ops(&ops[..cut], &doc, &mut budget) {
+            ops.truncate(cut);
         }
+    }
+    // 2. remove chunks (halves, quarters, ...), then single operations
+    let mut chunk = ops.len() / 2;
+    while chunk >= 1 && budget > 0 {
+        let mut i = 0;
+        while i < ops.len() && budget > 0 {
+            let end = (i + chunk).min(ops.len());
+            if end - i == ops.len() {
+                break;
+            }
+            let mut c = ops.clone();
+            c.drain(i..end);
+            if try_ops(&c, &doc, &mut budget) {
+                ops = c;
+            } else {
+                i += chunk;
+            }
+        }
+        if chunk == 1 {
+            break;
+        }
+        chunk /= 2;
     }
     doc["ops"] = serde_json::Value::Array(ops.clone());
     doc["minimised"] = serde_json::json!({"ops_before": before, "ops_after": ops.len()});
